@@ -613,9 +613,14 @@ fn judge(model: &Model, mode: LMode, queries: &[(bool, Raw)], a: &Answers, toler
                     push(format!("total-size-differs-from-listed-pack-sizes:{}", mode.name()), format!("total_size(tree) = {t}; listed under `packs`: tree packs {mt}, packs without blobs / of both types {mo}"));
                 }
             }
-            // what a reduced mode keeps of the data pack sizes is not part of the statement
+            // the ids-only mode (what every backup loads) keeps the pack sizes: its data total feeds the
+            // pack sizer and must equal the listed data pack sizes; the trees-only mode drops data altogether
             if mode == LMode::Ids && !(d >= md && d <= md + mo) {
-                *tolerated.entry("ids_only_mode_data_total_differs").or_insert(0) += 1;
+                if model.relisted && t + d >= model.all_dedup.0 && t + d <= model.all_dedup.1 {
+                    *tolerated.entry("total_size_counts_a_relisted_pack_once").or_insert(0) += 1;
+                } else {
+                    push("total-size-differs-from-listed-pack-sizes:ids-only:data".to_string(), format!("total_size(data) = {d}; listed under `packs`: data packs {md}, packs without blobs / of both types {mo}"));
+                }
             }
         }
     }
@@ -669,7 +674,7 @@ impl Prop for C17 {
         vec![
             "a pack listing without `size` has the size the repository format gives it (blobs + 37/41-byte header entries + 36); collections where that exceeds u32 are not generated",
             "which type a pack without blobs counts towards is left open (only the sum over both types and the per-type bounds are asserted); packs mixing blob types are outside the domain: deviations explained by filing the pack under its first blob's type are counted, not flagged",
-            "reduced modes: absence of data-blob answers (get_id in ids-only, has/get_id in trees-only) and the data size total are not asserted; an answer that is given must still be one of the listings",
+            "reduced modes: absence of data-blob answers (get_id in ids-only, has/get_id in trees-only) and the data size total of the trees-only mode are not asserted; an answer that is given must still be one of the listings",
             "under an injected read/list fault an Err of the load is accepted; an Ok load is judged like a fault-free one",
         ]
     }
